@@ -150,12 +150,15 @@ package fluentdforward
 //@   loop 2: foreach k int :: base.hasf(schema, k) && bsupport.rwcsok(rawget(cfg.Serialization.RewriteFields, k), schema)
 
 //@ func NewEventSerializer(parentLogger logger.Logger, schema base.LogSchema, config SerializationConfig) (base.LogSerializer, error)
-//@   property C16
+//@   property C16 C10
 //@   requires[verified-before-constructed] serok(config, schema)
 //@   requires rwvaluesok(config) && (forall i int :: 0 <= i && i < len(schema.fieldNames) ==> len(schema.fieldNames[i]) < 4294967296)
 //@   requires forall i int :: 0 <= i && i < len(config.EnvironmentFields) ==> len(config.EnvironmentFields[i]) < 4294967296
 //@   modifies nothing
 //@   ensures[verified-config-constructs] result.1 == nil
+//@   ensures[buffer-holds-twice-the-largest-input-record] typeis(result.0, *eventSerializer) && len(as(result.0, *eventSerializer).buffer) == 2 * defs.InputLogMaxRecordBytes
+//@        && len(as(result.0, *eventSerializer).serializedFieldKeys) == len(as(result.0, *eventSerializer).fieldMasks) && len(as(result.0, *eventSerializer).fieldRewriters) == len(as(result.0, *eventSerializer).fieldMasks)
+//@        && len(as(result.0, *eventSerializer).serializedEnvFieldKeys) == len(as(result.0, *eventSerializer).envFieldLocators)
 //@   loop 1: invariant -1 <= rangeindex && rangeindex < len(config.EnvironmentFields) && len(envFieldLocators) == len(config.EnvironmentFields) && isfresh(envFieldLocators)
 //@   loop 2: invariant -1 <= rangeindex#2 && rangeindex#2 < len(fieldNames) && len(fieldRewriters) == len(fieldNames) && isfresh(fieldRewriters)
 //@   loop 3: invariant -1 <= rangeindex#3 && rangeindex#3 < len(fieldNames) && len(fieldMasks) == len(fieldNames) && isfresh(fieldMasks)
